@@ -6,14 +6,11 @@
 import MultiProofs.OwnPool
 import MultiProofs.OwnReext
 import MultiProofs.OwnViewAssign
+import MultiProofs.OwnRows
 
 namespace Multi
 namespace Own
 variable {α : Type}
-
-/-- extensions of the array built from a range of `count` sub-arrays with extensions `inner` -/
-def rangeExts (count : Int) (inner : List Ext) : List Ext :=
-  ⟨0, count⟩ :: (if count = 0 then List.replicate inner.length ⟨0, 0⟩ else inner)
 
 /-- operations on whole arrays of a pool (slot names are natural numbers) -/
 inductive VOp (α : Type) where
@@ -39,6 +36,9 @@ inductive VOp (α : Type) where
   | rassign (k src : Nat) (ops : List Op)             -- `A = view`, `operator=(Range&&)` (reshape shortcut)
   | convassign (k src : Nat)                          -- `A = B` with `B` an array of another element type
   | stdswap (j k : Nat)                               -- `std::swap(A, B)`: move-construct a temporary, two move assignments
+  | assignr (k : Nat) (count : Int) (inner : List Ext) (vals : List α)   -- `A.assign(first, last)`
+  | ilassign (k : Nat) (count : Int) (inner : List Ext) (vals : List α)  -- `A = {…}` (nested initializer lists)
+  | il (k : Nat) (count : Int) (inner : List Ext) (vals : List α)        -- `array A = {…}` / `array A{…}`
 
 /-- the model's step -/
 def step (cfg : Cfg α) (p : Pool α) : VOp α → Pool α
@@ -122,6 +122,15 @@ def step (cfg : Cfg α) (p : Pool α) : VOp α → Pool α
     match p.arrs j, p.arrs k with
     | some a, some b => let r := stdSwap p.heap a b; ((p.withHeap r.1).set j (some r.2.1)).set k (some r.2.2)
     | _, _ => p
+  | .assignr k c inner vals =>
+    match p.arrs k with
+    | some a => let r := assignRange p.heap a c inner vals; (p.withHeap r.1).set k (some r.2)
+    | none => p
+  | .ilassign k c inner vals =>
+    match p.arrs k with
+    | some a => let r := ilAssign p.heap a c inner vals; (p.withHeap r.1).set k (some r.2)
+    | none => p
+  | .il k c inner vals => let r := ilCtor cfg p.heap c inner vals; (p.withHeap r.1).set k (some r.2)
 
 /-- the documented effect on values -/
 def specStep (cfg : Cfg α) (ap : Nat → Option (AbsArr α)) : VOp α → (Nat → Option (AbsArr α))
@@ -148,6 +157,9 @@ def specStep (cfg : Cfg α) (ap : Nat → Option (AbsArr α)) : VOp α → (Nat 
   | .rassign k src ops => upd ap k ((ap src).map fun x => viewVal x ops)
   | .convassign k src => upd ap k (ap src)
   | .stdswap j k => upd (upd ap j (ap k)) k (ap j)
+  | .assignr k c inner vals => upd ap k ((ap k).map fun x => listVal x c inner vals)
+  | .ilassign k c inner vals => upd ap k ((ap k).map fun x => if c = 0 then emptyVal x.exts.length else listVal x c inner vals)
+  | .il k c inner vals => upd ap k (some ⟨collapse (rangeExts c inner), vals.map some⟩)
 
 /-- the domain of each operation: slots live / free as the operation needs, extensions well formed, reshape to the same count -/
 def VOp.InDom (p : Pool α) : VOp α → Prop
@@ -175,6 +187,9 @@ def VOp.InDom (p : Pool α) : VOp α → Prop
       (applyOps b.view ops).lay ≠ [] ∧ (applyOps b.view ops).exts.length = a.dim
   | .convassign k src => k ≠ src ∧ ∃ a b, p.arrs k = some a ∧ p.arrs src = some b ∧ a.dim ≠ 0 ∧ b.dim = a.dim
   | .stdswap j k => j ≠ k ∧ ∃ a b, p.arrs j = some a ∧ p.arrs k = some b ∧ a.dim ≠ 0 ∧ b.dim ≠ 0
+  | .assignr k c inner vals => ∃ a, p.arrs k = some a ∧ a.dim ≠ 0 ∧ ExtsOK (rangeExts c inner) ∧ (vals.length : Int) = nElems (rangeExts c inner)
+  | .ilassign k c inner vals => ∃ a, p.arrs k = some a ∧ a.dim ≠ 0 ∧ ExtsOK (rangeExts c inner) ∧ (vals.length : Int) = nElems (rangeExts c inner)
+  | .il k c inner vals => p.arrs k = none ∧ ExtsOK (rangeExts c inner) ∧ (vals.length : Int) = nElems (rangeExts c inner)
 
 theorem absPool_some {p : Pool α} {k : Nat} {a : Arr} (h : p.arrs k = some a) : absPool p k = some (absArr p.heap a) := by
   simp [absPool, h]
@@ -295,22 +310,6 @@ theorem Inv.remove {p : Pool α} (hi : Inv p) {k : Nat} {a : Arr} (hk : p.arrs k
         congr 1
         unfold absArr
         rw [(hother j b hjk hb).2]
-
-/-- the array a move constructor builds: same block, same value -/
-theorem moveCtor_valid {h : Heap α} {b : Arr} (hv : Valid h b) :
-    Valid h (moveCtor b).1 ∧ absArr h (moveCtor b).1 = absArr h b ∧ (moveCtor b).1.numElements = b.numElements ∧ (moveCtor b).1.base = b.base := by
-  obtain ⟨hx, hn⟩ := hv.rebuild
-  have hnum : (moveCtor b).1.numElements = b.numElements := hn
-  refine ⟨⟨⟨b.exts, hv.exts_ok, rfl⟩, ?_⟩, ?_, hnum, rfl⟩
-  · rcases hv.store with hz | ⟨x, cs, hb, hl, hlen⟩
-    · left; rw [hnum, hz]
-    · right; exact ⟨x, cs, hb, hl, by rw [hnum, hlen]⟩
-  · apply AbsArr.ext'
-    · exact hx
-    · show cellsOf h (moveCtor b).1 = cellsOf h b
-      unfold cellsOf
-      rw [hnum]
-      rfl
 
 theorem Pool.set_set (p : Pool α) (k : Nat) (x y : Option Arr) : (p.set k x).set k y = p.set k y := by
   cases p with
@@ -529,6 +528,21 @@ theorem step_refines (cfg : Cfg α) (p : Pool α) (hi : Inv p) (op : VOp α) (hd
     by_cases hik : i = k
     · simp [hik, absPool_some ha]
     · simp [hik]
+  | assignr k c inner vals =>
+    obtain ⟨a, ha, hD, hes, hlen⟩ := hd
+    have := hi.replace k (assignRange_outcome (hi.valid k a ha) hD c inner vals hes hlen) (ownOf ha)
+    simp only [step, ha, specStep, absPool_some ha, Option.map_some]
+    exact this
+  | ilassign k c inner vals =>
+    obtain ⟨a, ha, hD, hes, hlen⟩ := hd
+    have := hi.replace k (ilAssign_outcome (hi.valid k a ha) hD c inner vals hes hlen) (ownOf ha)
+    simp only [step, ha, specStep, absPool_some ha, Option.map_some]
+    have he : (absArr p.heap a).exts.length = a.dim := exts_length a
+    simp only [he, emptyVal]
+    exact this
+  | il k c inner vals =>
+    obtain ⟨hk, hes, hlen⟩ := hd
+    exact hi.replace k (ilCtor_outcome cfg p.heap c inner vals hes hlen) (noOwner hk)
   | reext k es fill =>
     obtain ⟨a, ha, hes, hlen, hD⟩ := hd
     by_cases hx : Exts.eqv es a.exts = true
